@@ -7,6 +7,7 @@ mod e7;
 mod explore;
 mod families;
 mod glue;
+mod paths;
 mod refmodel;
 mod report;
 mod sym;
@@ -36,6 +37,10 @@ fn main() {
     let t0 = Instant::now();
     if args[1] == "genmax" {
         genmax();
+        return;
+    }
+    if args[1] == "genmax2" {
+        genmax2();
         return;
     }
     if args[1] == "genseeds" {
@@ -95,6 +100,11 @@ fn main() {
             use rayon::prelude::*;
             let rs: Vec<_> = cfgs.par_iter().enumerate().map(|(i, c)| sym::run_config(id, c, i as u64)).collect();
             for r in rs {
+                eprintln!("  {} : states={} transitions={} {:.1}s {}", r.family, r.stats.states, r.stats.transitions, r.wall_s, r.note);
+                ev.families.push(r);
+            }
+            {
+                let r = sym::run_scripts(id, paths::DISTANCE_NAME, &paths::distance_scripts(thorough));
                 eprintln!("  {} : states={} transitions={} {:.1}s {}", r.family, r.stats.states, r.stats.transitions, r.wall_s, r.note);
                 ev.families.push(r);
             }
@@ -205,10 +215,21 @@ fn run_e1_property(id: &str, thorough: bool, ev: &mut Evidence, t0: Instant) {
         eprintln!("  {} : roots={} states={} transitions={} {:.1}s {}", r.family, r.stats.roots, r.stats.states, r.stats.transitions, r.wall_s, r.note);
         ev.families.push(r);
     }
-    if id == "C03" {
-        for mn in [1usize, 3, 50, 255, 300, 65_535, 70_000, 1_000_000, (1usize << 32) - 1, (1usize << 32) + 1] {
-            let o = e1::E1Opts { prop: id, checks, move_number: mn, deadline: None, chunk: 1, roots_only: false, max_turns: 1, follow: None };
+    {
+        // starting move numbers around representation boundaries (every property: a counter that is too narrow or a
+        // branch keyed on the move number shows on the smallest family); C03 gets the long list
+        let mns: Vec<usize> = if id == "C03" { vec![1, 3, 50, 255, 300, 999, 9_999, 65_535, 70_000, 1_000_000, (1usize << 31) - 1, (1usize << 32) - 1, (1usize << 32) + 1] } else { vec![1, 999, 65_535, (1usize << 32) - 1] };
+        for mn in mns {
+            let o = e1::E1Opts { prop: id, checks, move_number: mn, deadline: None, chunk: 1, roots_only: false, max_turns: if id == "C03" { 2 } else { 1 }, follow: None };
             let mut r = e1::run_family(&families::f1(), &o);
+            r.family = format!("{} — starting move number {}", r.family, mn);
+            ev.families.push(r);
+        }
+        // ... and on the hand-made full boards
+        for mn in [999usize, 65_535, (1usize << 32) - 1] {
+            let fam = families::fs_files(&verif_dir().join("seeds"), &["handmade.txt"], 1);
+            let o = e1::E1Opts { prop: id, checks, move_number: mn, deadline: None, chunk: 1, roots_only: false, max_turns: 1, follow: None };
+            let mut r = e1::run_family(&fam, &o);
             r.family = format!("{} — starting move number {}", r.family, mn);
             ev.families.push(r);
         }
@@ -317,6 +338,11 @@ fn run_e2_property(id: &str, thorough: bool, ev: &mut Evidence) {
         eprintln!("  {} : states={} transitions={} {:.1}s {} {}", r.family, r.stats.states, r.stats.transitions, r.wall_s, if r.complete { "complete" } else { "INCOMPLETE" }, r.note);
         ev.families.push(r);
     }
+    if thorough || matches!(id, "C03" | "C05" | "C06" | "C07" | "C08") {
+        let r = paths::run_scripts(id, checks, paths::DISTANCE_NAME, &paths::distance_scripts(thorough));
+        eprintln!("  {} : states={} transitions={} {:.1}s {} {}", r.family, r.stats.states, r.stats.transitions, r.wall_s, if r.complete { "complete" } else { "INCOMPLETE" }, r.note);
+        ev.families.push(r);
+    }
     for r in e2::run_seed_shuffles(id, checks, thorough) {
         eprintln!("  {} : states={} transitions={} {:.1}s {} {}", r.family, r.stats.states, r.stats.transitions, r.wall_s, if r.complete { "complete" } else { "INCOMPLETE" }, r.note);
         ev.families.push(r);
@@ -370,6 +396,12 @@ fn run_c15(thorough: bool, ev: &mut Evidence, t0: Instant) {
     if fs.n > 0 {
         let o = e1::E1Opts { prop: id, checks: PARSE_LINK, move_number: 2, deadline, chunk: 1, roots_only: !thorough, max_turns: 1, follow: None };
         ev.families.push(e1::run_family(&fs, &if thorough { e1::E1Opts { checks: C15, ..o } } else { o }));
+    }
+    // positions that recur later in the same game with another move number (scripted cyclic games; every state on the
+    // path is printed and parsed back, in game order on one thread)
+    {
+        let scripts: Vec<paths::Script> = paths::distance_scripts(thorough).into_iter().filter(|s| thorough || s.config["own_turns_between_occurrences"].as_u64().unwrap_or(99) <= 5).collect();
+        ev.families.push(paths::run_scripts(id, C15, paths::DISTANCE_NAME, &scripts));
     }
     // setup states and finished set-ups
     ev.families.push(e3::run_trie(id, PARSE_LINK, "", if thorough { 6 } else { 5 }, "Gold sub-trie from the empty board (every setup state printed and parsed back)"));
@@ -532,6 +564,70 @@ fn replay(path: &str) -> i32 {
 /// One-off generator of seeds/maxmobility.txt: deterministic hill climbing (move one piece to any empty square, keep
 /// the best improvement) from three starting boards, maximising the number of offered actions at the root and after
 /// its first offered steps.  The committed text file is the family; nothing is random.
+/// One-off generator of seeds/bothmobile.txt: hill-climbs hand-made boards for positions in which BOTH sides have long
+/// action lists and several pieces that can step out and back (what the E9 seed shuffles need to put a third
+/// occurrence produced by a fourth step in front of a long list).  Deterministic; the committed text file is the family.
+fn genmax2() {
+    use refmodel as rm;
+    let score = |b: &rm::Board| -> usize {
+        if !rm::position_legal(b) || !rm::has_rabbit(b, true) || !rm::has_rabbit(b, false) || rm::rabbit_on_goal(b, true) || rm::rabbit_on_goal(b, false) {
+            return 0;
+        }
+        let g = glue::state_from_board(b, true, 10).valid_actions().len();
+        let s = glue::state_from_board(b, false, 10).valid_actions().len();
+        let cg = e2::shuffle_candidates_pub(b, true).min(6);
+        let cs = e2::shuffle_candidates_pub(b, false).min(6);
+        if cg < 5 || cs < 5 {
+            return cg + cs;
+        }
+        100 + g.min(s) * 4 + (g + s) / 4
+    };
+    let mut out = String::new();
+    for file in ["handmade.txt", "handmade2.txt"] {
+        let starts: Vec<String> = std::fs::read_to_string(verif_dir().join("seeds").join(file)).unwrap().split("# ").skip(1).map(|c| c.splitn(2, '\n').nth(1).unwrap_or("").to_string()).collect();
+        for (si, text) in starts.iter().enumerate().take(4) {
+            let (mut b, _, _) = match families::board_from_diagram(text) {
+                Ok(x) => x,
+                Err(_) => continue,
+            };
+            let mut cur = score(&b);
+            loop {
+                let mut best: Option<(usize, usize, usize)> = None;
+                for from in 0..64 {
+                    if b[from] == rm::EMPTY {
+                        continue;
+                    }
+                    for to in 0..64 {
+                        if b[to] != rm::EMPTY {
+                            continue;
+                        }
+                        let mut nb = b;
+                        nb[to] = nb[from];
+                        nb[from] = rm::EMPTY;
+                        let sc = score(&nb);
+                        if sc > cur && best.map_or(true, |x| sc > x.0) {
+                            best = Some((sc, from, to));
+                        }
+                    }
+                }
+                match best {
+                    Some((sc, from, to)) => {
+                        b[to] = b[from];
+                        b[from] = rm::EMPTY;
+                        cur = sc;
+                    }
+                    None => break,
+                }
+            }
+            let g = glue::state_from_board(&b, true, 10).valid_actions().len();
+            let sv = glue::state_from_board(&b, false, 10).valid_actions().len();
+            out.push_str(&format!("# hill-climbed from {} #{} for both sides mobile: {} actions offered with Gold to move, {} with Silver to move\n{}", file, si, g, sv, rm::diagram(&b, true, 10)));
+            println!("start {} {}: gold {} silver {}", file, si, g, sv);
+        }
+    }
+    std::fs::write(verif_dir().join("seeds").join("bothmobile.txt"), out).unwrap();
+}
+
 fn genmax() {
     use arimaa_engine_step::*;
     use refmodel as rm;
